@@ -3,10 +3,589 @@
 -/
 import BitstringModel.Model.C12
 import BitstringModel.Proofs.C01
+import BitstringModel.Props.C01
 import Mathlib.Tactic.Ring
 import Mathlib.Tactic.Linarith
 import Mathlib.Data.List.Basic
+import Mathlib.Data.List.Nodup
 namespace BM.C12
 open BM
+
+/-- clamped bounds of a positive-step slice lie in `[0, n]`. -/
+theorem sliceIndices_pos_bounds (s e : Option Int) (st : Int) (hst : 0 < st) (n : Nat) :
+    0 ≤ (Py.sliceIndices s e st n).1 ∧ (Py.sliceIndices s e st n).1 ≤ n ∧
+    0 ≤ (Py.sliceIndices s e st n).2.1 ∧ (Py.sliceIndices s e st n).2.1 ≤ n := by
+  have h : ¬ st < 0 := by omega
+  unfold Py.sliceIndices
+  cases s <;> cases e <;> simp only [h, if_false] <;> (try split) <;> (try split) <;> omega
+
+/-- re-normalising in-range bounds is the identity (up to the upper clamp of the start). -/
+theorem sliceIndices_some_nonneg (a b st : Int) (hst : 0 < st) (n : Nat) (ha : 0 ≤ a) (hb : 0 ≤ b) (hbn : b ≤ n) :
+    Py.sliceIndices (some a) (some b) st n = (min a n, b, st) := by
+  have h : ¬ st < 0 := by omega
+  have h1 : ¬ a < 0 := by omega
+  have h2 : ¬ b < 0 := by omega
+  simp only [Py.sliceIndices, h, h1, h2, if_false]
+  congr 2
+  omega
+
+theorem reverse_range_map (m : Nat) : (List.range m).reverse = (List.range m).map (fun k => m - 1 - k) := by
+  apply List.ext_getElem?
+  intro i
+  by_cases h : i < m
+  · simp [h]
+  · simp [h]
+
+/-- The index arithmetic of `offset_slice_indices_lsb0` for a positive step. -/
+theorem rangeList_mirror (s e st : Int) (n : Nat) (hst : 0 < st) (hs0 : 0 ≤ s) (_hsn : s ≤ n) (he0 : 0 ≤ e) (_hen : e ≤ n) :
+    Py.rangeList (min ((n : Int) - (s + (e - 1 - s) / st * st) - 1) n) ((n : Int) - s) st
+      = (Py.rangeList s e st).reverse.map fun i => (n : Int) - 1 - i := by
+  by_cases hse : s < e
+  · -- non-empty
+    have hq0 : 0 ≤ (e - 1 - s) / st := Int.ediv_nonneg (by omega) (by omega)
+    have hqle : (e - 1 - s) / st * st ≤ e - 1 - s := Int.ediv_mul_le _ (by omega)
+    set q := (e - 1 - s) / st with hq
+    have hmin : min ((n : Int) - (s + q * st) - 1) n = (n : Int) - (s + q * st) - 1 := by
+      have : 0 ≤ q * st := Int.mul_nonneg hq0 (by omega)
+      omega
+    rw [hmin]
+    have hcnt : Py.rangeLen s e st = q.toNat + 1 := by
+      rw [Py.rangeLen]; simp only [hst, hse, if_true]
+      have : e - s - 1 = e - 1 - s := by ring
+      rw [this]; omega
+    have hcnt' : Py.rangeLen ((n : Int) - (s + q * st) - 1) ((n : Int) - s) st = q.toNat + 1 := by
+      rw [Py.rangeLen]; simp only [hst, if_true]
+      have h3 : 0 ≤ q * st := Int.mul_nonneg hq0 (by omega)
+      have hlt : (n : Int) - (s + q * st) - 1 < (n : Int) - s := by omega
+      simp only [hlt, if_true]
+      have : (n : Int) - s - ((n : Int) - (s + q * st) - 1) - 1 = q * st := by ring
+      rw [this, Int.mul_ediv_cancel _ (by omega : st ≠ 0)]
+      omega
+    unfold Py.rangeList
+    rw [hcnt, hcnt', ← List.map_reverse, reverse_range_map, List.map_map, List.map_map]
+    apply List.map_congr_left
+    intro k hk
+    simp only [List.mem_range] at hk
+    simp only [Function.comp]
+    have hcast : ((q.toNat + 1 - 1 - k : Nat) : Int) = q - k := by omega
+    rw [hcast]
+    ring
+  · -- empty on both sides
+    have h1 : Py.rangeLen s e st = 0 := by
+      rw [Py.rangeLen]; simp only [hst, if_true, hse, if_false]
+    have hneg : (e - 1 - s) / st < 0 := Int.ediv_neg_of_neg_of_pos (by omega) hst
+    have hq : (e - 1 - s) / st * st ≤ -1 := by
+      have : (e - 1 - s) / st ≤ -1 := by omega
+      nlinarith
+    have h2 : Py.rangeLen (min ((n : Int) - (s + (e - 1 - s) / st * st) - 1) n) ((n : Int) - s) st = 0 := by
+      rw [Py.rangeLen]; simp only [hst, if_true]
+      have : ¬ (min ((n : Int) - (s + (e - 1 - s) / st * st) - 1) n < (n : Int) - s) := by omega
+      simp only [this, if_false]
+    simp [Py.rangeList, h1, h2]
+
+
+/-- the step a key stands for (`None` = 1). -/
+abbrev stepOf (k : Key) : Int := k.step.getD 1
+
+theorem stepOf_pos (k : Key) (hpos : negStep k = false) (h0 : k.step ≠ some 0) : 0 < stepOf k := by
+  unfold stepOf negStep at *
+  cases h : k.step with
+  | none => simp
+  | some c =>
+    rw [h] at hpos h0
+    simp only [decide_eq_false_iff_not, Int.not_lt] at hpos
+    have : c ≠ 0 := fun hc => h0 (by rw [hc])
+    simp only [Option.getD_some]
+    omega
+
+theorem getSlice_opt {α} (l : List α) (a b c : Option Int) (hc : c.getD 1 ≠ 0) :
+    Py.getSlice l a b c = .ok ((Py.rangeList (Py.sliceIndices a b (c.getD 1) l.length).1
+        (Py.sliceIndices a b (c.getD 1) l.length).2.1 (c.getD 1)).filterMap fun i => l[i.toNat]?) := by
+  simp only [Py.getSlice, hc, if_false]
+  rfl
+
+/-- start, stop of the mirrored slice, before clamping. -/
+def mirStart (k : Key) (n : Nat) : Int :=
+  (n : Int) - ((Py.sliceIndices k.start k.stop (stepOf k) n).1 +
+    ((Py.sliceIndices k.start k.stop (stepOf k) n).2.1 - 1 - (Py.sliceIndices k.start k.stop (stepOf k) n).1) / stepOf k * stepOf k) - 1
+def mirStop (k : Key) (n : Nat) : Int := (n : Int) - (Py.sliceIndices k.start k.stop (stepOf k) n).1
+
+theorem offsetSliceLsb0_pos (k : Key) (n : Nat) (hpos : negStep k = false) (h0 : k.step ≠ some 0) :
+    offsetSliceLsb0 k n = .ok ⟨some (mirStart k n), some (mirStop k n), k.step⟩ := by
+  unfold mirStart mirStop
+  have hst := stepOf_pos k hpos h0
+  unfold stepOf at *
+  unfold offsetSliceLsb0 indices
+  cases h : k.step with
+  | none => simp
+  | some c =>
+    rw [h] at hst h0
+    simp only [Option.getD_some] at hst ⊢
+    have h1 : ¬ c < 0 := by omega
+    simp only [gt_iff_lt, hst, if_true, h1, if_false]
+
+
+/-- the last visited element lies below `n` (also for an empty range). -/
+theorem mirStart_nonneg (k : Key) (n : Nat) (hst : 0 < stepOf k) : 0 ≤ mirStart k n := by
+  have hb := sliceIndices_pos_bounds k.start k.stop (stepOf k) hst n
+  unfold mirStart
+  generalize (Py.sliceIndices k.start k.stop (stepOf k) n).1 = s at *
+  generalize (Py.sliceIndices k.start k.stop (stepOf k) n).2.1 = e at *
+  generalize stepOf k = st at *
+  have hqle : (e - 1 - s) / st * st ≤ e - 1 - s := Int.ediv_mul_le _ (by omega)
+  omega
+
+theorem mirror_renorm (k : Key) (n : Nat) (hst : 0 < stepOf k) :
+    Py.sliceIndices (some (mirStart k n)) (some (mirStop k n)) (stepOf k) n
+      = (min (mirStart k n) n, mirStop k n, stepOf k) := by
+  have hb := sliceIndices_pos_bounds k.start k.stop (stepOf k) hst n
+  apply sliceIndices_some_nonneg _ _ _ hst n (mirStart_nonneg k n hst)
+  · unfold mirStop; omega
+  · unfold mirStop; omega
+
+theorem mirror_rangeList (k : Key) (n : Nat) (hst : 0 < stepOf k) :
+    Py.rangeList (min (mirStart k n) n) (mirStop k n) (stepOf k)
+      = (Py.rangeList (Py.sliceIndices k.start k.stop (stepOf k) n).1
+          (Py.sliceIndices k.start k.stop (stepOf k) n).2.1 (stepOf k)).reverse.map fun i => (n : Int) - 1 - i := by
+  have hb := sliceIndices_pos_bounds k.start k.stop (stepOf k) hst n
+  exact rangeList_mirror _ _ _ n hst hb.1 hb.2.1 hb.2.2.1 hb.2.2.2
+
+/-- members of a normalised positive-step range are valid positions. -/
+theorem mem_rangeList_bounds (k : Key) (n : Nat) (hst : 0 < stepOf k) (i : Int)
+    (hi : i ∈ Py.rangeList (Py.sliceIndices k.start k.stop (stepOf k) n).1
+          (Py.sliceIndices k.start k.stop (stepOf k) n).2.1 (stepOf k)) : 0 ≤ i ∧ i < n := by
+  unfold Py.rangeList at hi
+  simp only [List.mem_map, List.mem_range] at hi
+  obtain ⟨j, hj, rfl⟩ := hi
+  exact C01.sliceIndices_bounds k.start k.stop (stepOf k) (by omega) n j hj
+
+theorem getElem?_reverse_int {α} (l : List α) (i : Int) (h0 : 0 ≤ i) (hn : i < l.length) :
+    l.reverse[i.toNat]? = l[((l.length : Int) - 1 - i).toNat]? := by
+  rw [List.getElem?_reverse (by omega)]
+  congr 1
+  omega
+
+theorem getslice_mirror (l : Bits) (k : Key) (hpos : negStep k = false) (h0 : k.step ≠ some 0) :
+    getsliceWithstep .lsb0 l k = (getsliceWithstep .msb0 l.reverse k).map List.reverse := by
+  have hst := stepOf_pos k hpos h0
+  have hne : k.step.getD 1 ≠ 0 := by unfold stepOf at hst; omega
+  simp only [getsliceWithstep, offsetSliceLsb0_pos k l.length hpos h0, pyGet]
+  rw [getSlice_opt l _ _ _ hne, getSlice_opt l.reverse _ _ _ hne]
+  simp only [Except.map, List.length_reverse]
+  congr 1
+  have hr := mirror_renorm k l.length hst
+  unfold stepOf at hr hst
+  rw [hr]
+  simp only []
+  rw [mirror_rangeList k l.length hst, List.filterMap_map, ← List.filterMap_reverse]
+  apply List.filterMap_congr
+  intro i hi
+  rw [List.mem_reverse] at hi
+  have hb := mem_rangeList_bounds k l.length hst i hi
+  simp only [Function.comp]
+  rw [getElem?_reverse_int l i hb.1 hb.2]
+
+
+theorem reverse_filterMap_range {β} (n : Nat) (f : Nat → Option β) :
+    ((List.range n).filterMap f).reverse = (List.range n).filterMap (fun j => f (n - 1 - j)) := by
+  rw [← List.filterMap_reverse, reverse_range_map, List.filterMap_map]
+  rfl
+
+/-- membership in the mirrored index list. -/
+theorem mem_mirror_iff (idx : List Int) (n : Nat) (j : Nat) (hj : j < n) :
+    (j : Int) ∈ (idx.reverse.map fun i => (n : Int) - 1 - i) ↔ (((n - 1 - j : Nat) : Int)) ∈ idx := by
+  simp only [List.mem_map, List.mem_reverse]
+  constructor
+  · rintro ⟨i, hi, h⟩
+    have : i = ((n - 1 - j : Nat) : Int) := by omega
+    rwa [← this]
+  · intro h
+    exact ⟨_, h, by omega⟩
+
+theorem getElem?_reverse_nat {α} (l : List α) (j : Nat) (hj : j < l.length) :
+    l.reverse[l.length - 1 - j]? = l[j]? := by
+  rw [List.getElem?_reverse (by omega)]
+  congr 1
+  omega
+
+theorem delslice_mirror (l : Bits) (k : Key) (hpos : negStep k = false) (h0 : k.step ≠ some 0) :
+    delitemSlice .lsb0 l k = (delitemSlice .msb0 l.reverse k).map List.reverse := by
+  have hst := stepOf_pos k hpos h0
+  have hne : k.step.getD 1 ≠ 0 := by unfold stepOf at hst; omega
+  simp only [delitemSlice, offsetSliceLsb0_pos k l.length hpos h0, pyDel, hne, if_false,
+    Except.map, List.length_reverse]
+  congr 1
+  have hr := mirror_renorm k l.length hst
+  unfold stepOf at hr hst
+  rw [hr]
+  simp only []
+  rw [mirror_rangeList k l.length hst, reverse_filterMap_range]
+  apply List.filterMap_congr
+  intro j hj
+  simp only [List.mem_range] at hj
+  have hm := mem_mirror_iff (Py.rangeList (Py.sliceIndices k.start k.stop (stepOf k) l.length).1
+          (Py.sliceIndices k.start k.stop (stepOf k) l.length).2.1 (stepOf k)) l.length j hj
+  unfold stepOf at hm
+  by_cases hin : ((l.length - 1 - j : Nat) : Int) ∈ Py.rangeList (Py.sliceIndices k.start k.stop (k.step.getD 1) l.length).1
+          (Py.sliceIndices k.start k.stop (k.step.getD 1) l.length).2.1 (k.step.getD 1)
+  · simp only [hm.mpr hin, hin, if_true]
+  · have : ¬ _ := fun h => hin (hm.mp h)
+    simp only [this, hin, if_false]
+    exact (getElem?_reverse_nat l j hj).symm
+
+
+/-- lookup through an injective renaming of the keys. -/
+theorem lookup_map_key {β} (φ : Int → Int) (hφ : Function.Injective φ) (A : List (Int × β)) (a : Int) :
+    (A.map (Prod.map φ id)).lookup (φ a) = A.lookup a := by
+  induction A with
+  | nil => rfl
+  | cons x xs ih =>
+    obtain ⟨k, b⟩ := x
+    simp only [List.map_cons, Prod.map, id, List.lookup_cons]
+    by_cases h : a = k
+    · subst h; simp
+    · have h1 : (a == k) = false := by simpa using h
+      have h2 : (φ a == φ k) = false := by simpa using fun hh => h (hφ hh)
+      rw [h1, h2]; exact ih
+
+/-- with pairwise distinct keys the order of an association list is irrelevant for `lookup`. -/
+theorem lookup_reverse_of_nodup {β} (A : List (Int × β)) (hA : (A.map Prod.fst).Nodup) (a : Int) :
+    A.reverse.lookup a = A.lookup a := by
+  induction A with
+  | nil => rfl
+  | cons x xs ih =>
+    obtain ⟨k, b⟩ := x
+    simp only [List.map_cons, List.nodup_cons] at hA
+    rw [List.reverse_cons, List.lookup_append, ih hA.2]
+    simp only [List.lookup_cons, List.lookup_nil]
+    by_cases h : a = k
+    · subst h
+      have hnone : xs.lookup a = none := by
+        rw [List.lookup_eq_none_iff]
+        intro p hp
+        have : p.1 ≠ a := fun hh => hA.1 (hh ▸ List.mem_map_of_mem (f := Prod.fst) hp)
+        simpa [bne_iff_ne] using fun hh => this hh.symm
+      simp [hnone]
+    · have h1 : (a == k) = false := by simpa using h
+      simp [h1]
+
+theorem rangeList_nodup (s e st : Int) (hst : st ≠ 0) : (Py.rangeList s e st).Nodup := by
+  unfold Py.rangeList
+  apply List.Nodup.map_on _ List.nodup_range
+  intro a _ b _ h
+  have : (a : Int) * st = (b : Int) * st := by omega
+  have := Int.eq_of_mul_eq_mul_right hst this
+  omega
+
+
+theorem assignAt_mirror {α} (l : List α) (idx : List Int) (v : List α)
+    (hlen : v.length = idx.length) (hnd : idx.Nodup) :
+    assignAt l (idx.reverse.map fun i => (l.length : Int) - 1 - i) v
+      = (assignAt l.reverse idx v.reverse).reverse := by
+  unfold assignAt
+  rw [reverse_filterMap_range, List.length_reverse]
+  apply List.filterMap_congr
+  intro j hj
+  simp only [List.mem_range] at hj
+  have hφ : Function.Injective (fun i : Int => (l.length : Int) - 1 - i) := by
+    intro a b h; simp only at h; omega
+  have hj' : (j : Int) = (fun i : Int => (l.length : Int) - 1 - i) (((l.length - 1 - j : Nat) : Int)) := by
+    simp only; omega
+  have hA : ((idx.reverse.zip v).map Prod.fst).Nodup := by
+    rw [List.map_fst_zip (by simp [hlen])]
+    exact List.nodup_reverse.mpr hnd
+  have hrev : (idx.reverse.zip v).reverse = idx.zip v.reverse := by
+    rw [List.zip_eq_zipWith, List.reverse_zipWith (by simp [hlen]), List.reverse_reverse, ← List.zip_eq_zipWith]
+  rw [List.zip_map_left, hj', lookup_map_key _ hφ, ← lookup_reverse_of_nodup _ hA, hrev]
+  rw [getElem?_reverse_nat l j hj]
+
+
+theorem mirStart_step1 (k : Key) (n : Nat) (h1 : stepOf k = 1) :
+    mirStart k n = (n : Int) - (Py.sliceIndices k.start k.stop 1 n).2.1 := by
+  unfold mirStart
+  rw [h1, Int.ediv_one, Int.mul_one]
+  omega
+
+theorem rangeList_length (s e st : Int) : (Py.rangeList s e st).length = Py.rangeLen s e st := by
+  simp [Py.rangeList]
+
+theorem setslice_mirror (l : Bits) (k : Key) (v : Bits) (hpos : negStep k = false) (h0 : k.step ≠ some 0)
+    (hinv : invertedAssign k l.length = false) :
+    setitemSlice .lsb0 l k v = (setitemSlice .msb0 l.reverse k v.reverse).map List.reverse := by
+  have hst := stepOf_pos k hpos h0
+  have hne : k.step.getD 1 ≠ 0 := by unfold stepOf at hst; omega
+  have hr := mirror_renorm k l.length hst
+  have hb := sliceIndices_pos_bounds k.start k.stop (stepOf k) hst l.length
+  simp only [setitemSlice, offsetSliceLsb0_pos k l.length hpos h0, pySet, hne, if_false, List.length_reverse]
+  unfold stepOf at hr hst hb
+  rw [hr]
+  simp only []
+  by_cases h1 : k.step.getD 1 = 1
+  · -- resizing assignment
+    simp only [h1, if_true, Except.map]
+    congr 1
+    have hms := mirStart_step1 k l.length h1
+    have hk : k.step = none ∨ k.step = some 1 := by
+      cases hks : k.step with
+      | none => exact Or.inl rfl
+      | some c => rw [hks] at h1; simp only [Option.getD_some] at h1; rw [h1]; exact Or.inr rfl
+    have hni : ¬ (Py.sliceIndices k.start k.stop 1 l.length).2.1 < (Py.sliceIndices k.start k.stop 1 l.length).1 := by
+      intro hlt
+      have : invertedAssign k l.length = true := by
+        unfold invertedAssign; simp [hk, hlt]
+      rw [this] at hinv; cases hinv
+    rw [h1] at hb
+    unfold mirStop
+    unfold stepOf
+    rw [hms, h1]
+    generalize (Py.sliceIndices k.start k.stop 1 l.length).1 = s at *
+    generalize (Py.sliceIndices k.start k.stop 1 l.length).2.1 = e at *
+    have e1 : (min ((l.length : Int) - e) l.length).toNat = l.length - e.toNat := by omega
+    have e2 : (max ((l.length : Int) - s) (min ((l.length : Int) - e) l.length)).toNat = l.length - s.toNat := by omega
+    have e3 : (max e s).toNat = e.toNat := by omega
+    rw [e1, e2, e3, List.reverse_append, List.reverse_append, List.reverse_reverse, List.reverse_drop, List.reverse_take,
+      List.reverse_reverse, List.length_reverse, List.append_assoc]
+  · -- extended slice
+    simp only [h1, if_false]
+    rw [mirror_rangeList k l.length hst]
+    simp only [List.length_map, List.length_reverse]
+    unfold stepOf
+    split
+    · rfl
+    · rename_i hlen
+      simp only [Except.map]
+      congr 1
+      have hlen' : v.length = (Py.rangeList (Py.sliceIndices k.start k.stop (k.step.getD 1) l.length).1
+          (Py.sliceIndices k.start k.stop (k.step.getD 1) l.length).2.1 (k.step.getD 1)).length := by
+        simpa using hlen
+      exact assignAt_mirror l _ v hlen' (rangeList_nodup _ _ _ hne)
+
+
+theorem reverse_eq_of_getElem? {α} (x y : List α) (hlen : x.length = y.length)
+    (h : ∀ i, i < y.length → x[y.length - 1 - i]? = y[i]?) : x.reverse = y := by
+  apply List.ext_getElem?
+  intro i
+  by_cases hi : i < y.length
+  · rw [List.getElem?_reverse (by omega), hlen]; exact h i hi
+  · rw [List.getElem?_eq_none (by simp; omega), List.getElem?_eq_none (by omega)]
+
+theorem pyIndex_mirror (n : Nat) (i : Int) :
+    pyIndex n (-i - 1) = (pyIndex n i).map fun j => n - 1 - j := by
+  unfold pyIndex
+  by_cases h : i < 0
+  · have h1 : ¬ (-i - 1 < 0) := by omega
+    simp only [h, h1, if_true, if_false]
+    by_cases h2 : i + n < 0
+    · have : (n : Int) ≤ -i - 1 := by omega
+      simp [h2, this, Except.map]
+    · have h3 : ¬ ((n : Int) ≤ -i - 1) := by omega
+      have h4 : ¬ ((n : Int) ≤ i + n) := by omega
+      simp only [h2, h3, h4, or_self, if_false, Except.map]
+      congr 1; omega
+  · have h1 : (-i - 1 < 0) := by omega
+    simp only [h, h1, if_true, if_false]
+    by_cases h2 : (n : Int) ≤ i
+    · have : -i - 1 + n < 0 := by omega
+      simp [h2, this, Except.map]
+    · have h3 : ¬ (-i - 1 + (n : Int) < 0) := by omega
+      have h4 : ¬ ((n : Int) ≤ -i - 1 + n) := by omega
+      have h5 : ¬ (i < 0) := h
+      simp only [h2, h3, h4, or_self, if_false, Except.map]
+      congr 1; omega
+
+theorem pyIndex_lt (n : Nat) (i : Int) (j : Nat) (h : pyIndex n i = .ok j) : j < n := by
+  simp only [pyIndex] at h
+  by_cases hc : (if i < 0 then i + (n : Int) else i) < 0 ∨ (n : Int) ≤ (if i < 0 then i + (n : Int) else i)
+  · rw [if_pos hc] at h; cases h
+  · rw [if_neg hc] at h
+    injection h with h
+    split at hc <;> split at h <;> omega
+
+theorem set_mirror (l : Bits) (j : Nat) (hj : j < l.length) (b : Bool) :
+    (l.reverse.set j b).reverse = l.set (l.length - 1 - j) b := by
+  apply reverse_eq_of_getElem? _ _ (by simp)
+  intro i hi
+  simp only [List.length_set] at hi ⊢
+  rw [List.getElem?_set, List.getElem?_set, List.length_reverse, List.getElem?_reverse (by omega)]
+  have e : l.length - 1 - (l.length - 1 - i) = i := by omega
+  rw [e]
+  by_cases h : j = l.length - 1 - i
+  · have h' : l.length - 1 - j = i := by omega
+    have h2 : l.length - 1 - j < l.length := by omega
+    rw [if_pos h, if_pos h', if_pos hj, if_pos h2]
+  · have h' : ¬ (l.length - 1 - j = i) := by omega
+    rw [if_neg h, if_neg h']
+
+theorem modify_mirror (l : Bits) (j : Nat) (hj : j < l.length) (f : Bool → Bool) :
+    (l.reverse.modify j f).reverse = l.modify (l.length - 1 - j) f := by
+  apply reverse_eq_of_getElem? _ _ (by simp)
+  intro i hi
+  simp only [List.length_modify] at hi ⊢
+  rw [List.getElem?_modify, List.getElem?_modify, List.getElem?_reverse (by omega)]
+  have e : l.length - 1 - (l.length - 1 - i) = i := by omega
+  rw [e]
+  by_cases h : j = l.length - 1 - i
+  · have h' : l.length - 1 - j = i := by omega
+    simp only [h', if_true]
+    simp [← h]
+  · have h' : ¬ (l.length - 1 - j = i) := by omega
+    simp only [h', if_false]
+    simp [h]
+
+theorem eraseIdx_mirror (l : Bits) (j : Nat) (hj : j < l.length) :
+    (l.reverse.eraseIdx j).reverse = l.eraseIdx (l.length - 1 - j) := by
+  apply reverse_eq_of_getElem? _ _ (by simp [List.length_eraseIdx]; split <;> split <;> omega)
+  intro i hi
+  have hlen : (l.eraseIdx (l.length - 1 - j)).length = l.length - 1 := by
+    rw [List.length_eraseIdx]; split <;> omega
+  rw [hlen] at hi ⊢
+  rw [List.getElem?_eraseIdx, List.getElem?_eraseIdx]
+  by_cases h : l.length - 1 - 1 - i < j
+  · have h' : ¬ (i < l.length - 1 - j) := by omega
+    simp only [h, h', if_true, if_false]
+    rw [List.getElem?_reverse (by omega)]
+    congr 1; omega
+  · have h' : i < l.length - 1 - j := by omega
+    simp only [h, h', if_true, if_false]
+    rw [List.getElem?_reverse (by omega)]
+    congr 1; omega
+
+
+theorem getIndex_eq_pyIndex (l : Bits) (i : Int) :
+    Py.getIndex l i = match pyIndex l.length i with
+      | .error e => .error e
+      | .ok j => match l[j]? with
+        | some x => .ok x
+        | none => .error .index := by
+  unfold Py.getIndex pyIndex
+  simp only []
+  by_cases h : (if i < 0 then i + (l.length : Int) else i) < 0
+  · simp [h]
+  · by_cases h2 : (l.length : Int) ≤ (if i < 0 then i + (l.length : Int) else i)
+    · simp only [h, h2, if_false, or_true, if_true]
+      rw [List.getElem?_eq_none (by omega)]
+    · simp only [h, h2, if_false, or_self]
+      cases l[(if i < 0 then i + (l.length : Int) else i).toNat]? <;> rfl
+
+theorem getindex_mirror (l : Bits) (i : Int) : getindex .lsb0 l i = getindex .msb0 l.reverse i := by
+  simp only [getindex, pyGetIdx, getIndex_eq_pyIndex, List.length_reverse, pyIndex_mirror]
+  cases h : pyIndex l.length i with
+  | error e => rfl
+  | ok j =>
+    have hj := pyIndex_lt _ _ _ h
+    simp only [Except.map]
+    rw [List.getElem?_reverse (by omega)]
+
+theorem setitemIdx_mirror (l : Bits) (i : Int) (b : Bool) :
+    setitemIdx .lsb0 l i b = (setitemIdx .msb0 l.reverse i b).map List.reverse := by
+  simp only [setitemIdx, pySetIdx, List.length_reverse, pyIndex_mirror]
+  cases h : pyIndex l.length i with
+  | error e => rfl
+  | ok j =>
+    have hj := pyIndex_lt _ _ _ h
+    simp only [Except.map, bind, Except.bind, pure, Except.pure]
+    rw [set_mirror l j hj]
+
+theorem delitemIdx_mirror (l : Bits) (i : Int) :
+    delitemIdx .lsb0 l i = (delitemIdx .msb0 l.reverse i).map List.reverse := by
+  simp only [delitemIdx, pyDelIdx, List.length_reverse, pyIndex_mirror]
+  cases h : pyIndex l.length i with
+  | error e => rfl
+  | ok j =>
+    have hj := pyIndex_lt _ _ _ h
+    simp only [Except.map, bind, Except.bind, pure, Except.pure]
+    rw [eraseIdx_mirror l j hj]
+
+theorem invertIdx_mirror (l : Bits) (i : Int) :
+    invertIdx .lsb0 l i = (invertIdx .msb0 l.reverse i).map List.reverse := by
+  simp only [invertIdx, pyInvertIdx, List.length_reverse, pyIndex_mirror]
+  cases h : pyIndex l.length i with
+  | error e => rfl
+  | ok j =>
+    have hj := pyIndex_lt _ _ _ h
+    simp only [Except.map, bind, Except.bind, pure, Except.pure]
+    rw [modify_mirror l j hj]
+
+theorem setMany_mirror (b : Bool) (ps : List Int) (l : Bits) :
+    setMany .lsb0 b l ps = (setMany .msb0 b l.reverse ps).map List.reverse := by
+  induction ps generalizing l with
+  | nil => simp [setMany, Except.map]
+  | cons p ps ih =>
+    simp only [setMany, setitemIdx_mirror l p b]
+    cases h : setitemIdx .msb0 l.reverse p b with
+    | error e => rfl
+    | ok l' =>
+      simp only [Except.map]
+      rw [ih l'.reverse, List.reverse_reverse]
+      rfl
+
+theorem invertMany_mirror (ps : List Int) (l : Bits) :
+    invertMany .lsb0 l ps = (invertMany .msb0 l.reverse ps).map List.reverse := by
+  induction ps generalizing l with
+  | nil => simp [invertMany, Except.map]
+  | cons p ps ih =>
+    simp only [invertMany, List.length_reverse]
+    generalize (if p < 0 then p + (l.length : Int) else p) = q
+    by_cases hq : q < 0 ∨ (l.length : Int) ≤ q
+    · simp only [hq, if_true]; rfl
+    · simp only [hq, if_false]
+      rw [invertIdx_mirror]
+      cases h : invertIdx .msb0 l.reverse q with
+      | error e => rfl
+      | ok l' =>
+        simp only [Except.map]
+        rw [ih l'.reverse, List.reverse_reverse]
+        rfl
+
+theorem allAt_mirror (b : Bool) (ps : List Int) (l : Bits) : allAt .lsb0 l b ps = allAt .msb0 l.reverse b ps := by
+  induction ps with
+  | nil => rfl
+  | cons p ps ih => simp only [allAt, getindex_mirror, ih]
+
+theorem anyAt_mirror (b : Bool) (ps : List Int) (l : Bits) : anyAt .lsb0 l b ps = anyAt .msb0 l.reverse b ps := by
+  induction ps with
+  | nil => rfl
+  | cons p ps ih => simp only [anyAt, getindex_mirror, ih]
+
+
+theorem sliceStep1_eq {α} (l : List α) (a b : Option Int) : Py.getSlice l a b none = .ok (sliceStep1 l a b) :=
+  C01.getSlice_step1 l a b
+
+theorem getslice_eq_withstep (m : Mode) (l : Bits) (a b : Option Int) :
+    getslice m l a b = getsliceWithstep m l ⟨a, b, none⟩ := by
+  cases m with
+  | msb0 => simp only [getslice, getsliceWithstep, getsliceMsb0, pyGet, sliceStep1_eq]
+  | lsb0 =>
+    simp only [getslice, getsliceWithstep]
+    rw [offsetSliceLsb0_pos ⟨a, b, none⟩ l.length rfl (by simp)]
+    simp only [pyGet, sliceStep1_eq]
+
+theorem getslice2_mirror (l : Bits) (a b : Option Int) :
+    getslice .lsb0 l a b = (getslice .msb0 l.reverse a b).map List.reverse := by
+  rw [getslice_eq_withstep, getslice_eq_withstep]
+  exact getslice_mirror l ⟨a, b, none⟩ rfl (by simp)
+
+theorem invertedAssign_false_of_le (a b : Int) (n : Nat) (h0 : 0 ≤ a) (hab : a ≤ b) :
+    invertedAssign ⟨some a, some b, none⟩ n = false := by
+  unfold invertedAssign
+  have h1 : ¬ a < 0 := by omega
+  have h2 : ¬ b < 0 := by omega
+  have h3 : ¬ ((1 : Int) < 0) := by omega
+  simp only [Py.sliceIndices, h1, h2, h3, if_false]
+  simp only [true_or, true_and, decide_eq_false_iff_not]
+  omega
+
+theorem step_zero_raises (m : Mode) (l v : Bits) (a b : Option Int) :
+    (∃ e, getsliceWithstep m l ⟨a, b, some 0⟩ = .error e) ∧ (∃ e, delitemSlice m l ⟨a, b, some 0⟩ = .error e) ∧
+    (∃ e, setitemSlice m l ⟨a, b, some 0⟩ v = .error e) := by
+  have h : offsetSliceLsb0 ⟨a, b, some 0⟩ l.length = .error (.internal "AssertionError") := by
+    simp [offsetSliceLsb0, indices]
+  cases m with
+  | msb0 => exact ⟨⟨.value, by simp [getsliceWithstep, pyGet, Py.getSlice]⟩, ⟨.value, by simp [delitemSlice, pyDel]⟩,
+      ⟨.value, by simp [setitemSlice, pySet]⟩⟩
+  | lsb0 => exact ⟨⟨.internal "AssertionError", by simp only [getsliceWithstep, h]⟩,
+      ⟨.internal "AssertionError", by simp only [delitemSlice, h]⟩,
+      ⟨.internal "AssertionError", by simp only [setitemSlice, h]⟩⟩
+
 
 end BM.C12
